@@ -124,6 +124,14 @@ def sorted_int_set(ctx, member, pattern, name):
 
 
 def sum_(interp, argv):
+    v = argv[0]
+    if len(argv) == 1 and v.kind == 'bag' and len(v.sorts) == 1:
+        x = fresh('x', v.sorts[0])
+        e = v.make(x)
+        if e.kind == 'int' and concrete_int(e.z) == 1:
+            # sum of a collection of ones = its number of elements
+            from .engine import b_len
+            return b_len(interp, [v], {}, None)
     raise Undecided('sum()')
 
 
@@ -135,10 +143,89 @@ def dict_(interp, argv):
         return VMap(lambda q: SKey[q], lambda q: VInt(SCnt[q]), {'copy_of': 'snapshots'})
     if v.kind == 'dict':
         return VDictLit(list(v.pairs))
+    if v.kind == 'list' and not v.esc and all(x.kind == 'tuple' and len(x.items) == 2 for x in v.items):
+        out = []
+        for x in v.items:           # (later pairs overwrite earlier ones with an equal key)
+            out = [(k, w) for (k, w) in out if veq_static(k, x.items[0]) is False] + [(x.items[0], x.items[1])]
+        return VDictLit(out)
+    if v.kind == 'bag' and len(v.sorts) == 1 and v.sorts[0] == Node:
+        # dict(<pairs (node, value), one per member node>): a map keyed by the member nodes
+        x = fresh('x', Node)
+        e = v.make(x)
+        if e.kind == 'tuple' and len(e.items) == 2 and e.items[0].kind == 'node' and e.items[0].z.eq(x):
+            return VNodeMap(v.member, lambda a: v.make(a).items[1])
     raise Undecided('dict() of %s' % v.kind)
 
 
+def veq_static(a, b):
+    from .interp import veq
+    try:
+        r = veq(a, b)
+    except Undecided:
+        return None
+    if r is True or r is False:
+        return r
+    raise Undecided('dict() of pairs whose keys may or may not coincide')
+
+
+class VNodeMap(V):
+    """a locally built dict keyed by nodes: dom(a) -> Bool, get(a) -> V"""
+    kind = 'nodemap'
+
+    def __init__(self, dom, get):
+        self.dom, self.get = dom, get
+
+
+class VNodeMapView(V):
+    kind = 'nodemapview'
+
+    def __init__(self, m, what):
+        self.m, self.what = m, what
+
+
+def m_nodemap_values(interp, recv, argv, kwv):
+    return VNodeMapView(recv, 'values')
+
+
+def m_nodemap_items(interp, recv, argv, kwv):
+    return VNodeMapView(recv, 'items')
+
+
+def mapped_nodemap(interp, fr, g, e, view):
+    """[f(k, v) for k, v in m.items() if c(k, v)] / [f(v) for v in m.values() if c(v)]: one element per key that passes the filter"""
+    from .loops import VBag
+    ctx = interp.ctx
+    m = view.m
+    a0 = fresh('a0', Node)
+    saved = dict(fr.env)
+    interp.assign(g.target, VTuple([VNode(a0), m.get(a0)]) if view.what == 'items' else m.get(a0), fr)
+    n_h, n_pc = len(ctx.hyps), len(ctx.pc)
+    ctx.solver.push()
+    try:
+        ctx.assume(m.dom(a0))
+        conds = []
+        for cnd in g.ifs:
+            t_ = interp.truth(interp.eval(cnd, fr))
+            conds.append(z3.BoolVal(t_) if isinstance(t_, bool) else t_)
+        val = interp.eval(e.elt, fr)
+    finally:
+        ctx.solver.pop()
+        del ctx.hyps[n_h:]
+        del ctx.hyp_cats[n_h:]
+        del ctx.pc[n_pc:]
+    fr.env.clear()
+    fr.env.update(saved)
+    cond0 = z3.And(*conds) if conds else z3.BoolVal(True)
+    subst_v(val, a0, a0)
+    return VBag([Node], lambda a: z3.And(m.dom(a), z3.substitute(cond0, (a0, a))), lambda a: subst_v(val, a0, a), note='mapped node map')
+
+
 def next_(interp, argv):
+    v = argv[0]
+    if len(argv) == 1 and v.kind == 'list' and not v.esc:
+        if not v.items:
+            raise PyRaise('StopIteration', 'next() of an exhausted iterator')
+        return v.items[0]
     raise Undecided('next()')
 
 
@@ -255,6 +342,10 @@ def symbolic_comprehension(interp, e, fr, it, what):
         from .loops import VBag
         NodeIn = it.g['NodeIn']
         return VBag([Node], lambda a: NodeIn[a], lambda a: VNode(a), note='nodes')
+    if it.kind == 'nodemapview' and what == 'list':
+        return mapped_nodemap(interp, fr, g, e, it)
+    if it.kind == 'bag' and what == 'list' and not g.ifs and isinstance(g.target, _ast.Name) and isinstance(e.elt, _ast.Name) and e.elt.id == g.target.id:
+        return it            # [x for x in <collection>]: the same elements
     if it.kind == 'keys' and it.what == 'items' and it.base.kind == 'adj' and what == 'list' and not g.ifs:
         return mapped_adjacency_items(interp, fr, g, e, it.base)
     rowlike = it if it.kind == 'row' else (it.base if (it.kind == 'keys' and it.what == 'keys' and it.base.kind == 'row') else None)
